@@ -23,7 +23,7 @@ class Measure(Part):
     rule = ("trees as C01 x available width A in 0..200 (biased to small values and to the structural minimum +-3): 0 <= minimum <= maximum <= A, and "
             "rendering at the reported minimum and maximum (when >= structural minimum) yields no line wider than that value; "
             "non-trivial = a container with >= 2 children, or A below the natural width, or wide characters")
-    budget = {"quick": (16, 150), "thorough": (16, 6000)}
+    budget = {"quick": (16, 300), "thorough": (16, 6000)}
     chunk = 150
 
     def strategy(self, tier):
@@ -74,7 +74,7 @@ class TextMeasure(Part):
     name = "text"
     rule = ("tab-free texts (words of narrow/wide/zero-width characters, runs of spaces, newlines, U+3000) x A in 0..200: minimum == min(A, widest word), "
             "maximum == min(A, widest line), and wrapping at the unclamped maximum gives exactly the newline-split lines; non-trivial = >= 2 lines and a wide character")
-    budget = {"quick": (4, 1500), "thorough": (16, 15000)}
+    budget = {"quick": (8, 1500), "thorough": (16, 15000)}
 
     def strategy(self, tier):
         t = st.one_of(GC.words_text(8), GC.words_text(8), GC.mixed_text(30, newlines=True), st.sampled_from(["", " ", "\n", "a", " a ", "a\n", "\na", GC.WIDE[0] + "　" + "b"]))
